@@ -443,5 +443,11 @@ impl CssDestination for AtMediaDest<'_> {
 }
 
 fn is_flat_rule(name: &str) -> bool {
-    name == "font-face" || name == "keyframes"
+    name == "font-face" || is_keyframes(name)
+}
+
+/// True for `keyframes`, with or without a vendor prefix.
+pub(super) fn is_keyframes(name: &str) -> bool {
+    name == "keyframes"
+        || (name.starts_with('-') && name.ends_with("-keyframes"))
 }
